@@ -361,7 +361,10 @@ def r_elast(ctx, model):
         "c.dat": (950.0, 3, 77.7, ((800.0, {"c11": 410.5, "c12": 150.25}), (900.0, {"c11": 350.5, "c12": 130.25}), (1000.0, {"c11": 300.5, "c12": 110.25})),
                   ((8.1, 8.2, 8.3), (9.1, 9.2, 9.3), (10.1, 10.2, 10.3))),
     }
-    for name, text in (("a.dat", TABLE_A), ("b.dat", TABLE_B), ("c.dat", TABLE_C)):
+    # the table without lattice block again, as editors leave it: one empty line after the table, and a line holding only blanks
+    wants["b-blank.dat"] = wants["b.dat"]
+    wants["b-spaces.dat"] = wants["b.dat"]
+    for name, text in (("a.dat", TABLE_A), ("b.dat", TABLE_B), ("c.dat", TABLE_C), ("b-blank.dat", TABLE_B + "\n"), ("b-spaces.dat", TABLE_B + "   \n")):
         intr = io_intrinsics({name: text}, [])
         intr["cij.c_"] = c_intrinsic
         intr.update(text_table_intrinsics())
@@ -372,7 +375,7 @@ def r_elast(ctx, model):
             ctx.violation(f"elast.{name}", w, "the reference table is parsed", f"raises {e.exc_name} at {e.where}", f"read_elast_data fails on a well-formed table ({e.exc_name})")
             continue
         got = plain(out)
-        ctx.check(close(got, wants[name]), f"read_elast_data on reference table {name} ({'without' if name == 'b.dat' else 'with'} lattice block{', rows by increasing volume' if name == 'c.dat' else ''})", w,
+        ctx.check(close(got, wants[name]), f"read_elast_data on reference table {name} ({'without' if name.startswith('b') else 'with'} lattice block{', rows by increasing volume' if name == 'c.dat' else ''})", w,
                   expected=str(wants[name])[:300], found=str(got)[:300],
                   explanation="the static table is not parsed into (reference volume, count, cell mass, per-volume components under canonical keys, "
                               "lattice rows): header field order, volume column, key/column pairing or the lattice block", key=f"elast.{name}")
